@@ -48,7 +48,7 @@ var recSvc = ev.New(prop, "service-hostile",
 		"requests routed to upstream clients whose server is the harness answering with hostile replies (socks5/http/ss2022 TCP, socks5/none/ss2022 UDP); requests whose route "+
 		"needs a DNS lookup answered by hostile DNS-over-TCP replies. After every operation the canary tunnel must echo; after every batch a fresh SOCKS5 CONNECT, a direct-server "+
 		"connection and a UDP exchange must work. Non-trivial: the operation reached a listener and (for via/dns) the hostile upstream was actually consulted; distinct key = kind + listener + build + close mode").
-	Require("kind:tcp", "kind:udp", "kind:via-tcp", "kind:via-udp", "kind:dns", "kind:flood", "flood:route-reject", "upstream-consulted", "dns-consulted",
+	Require("kind:trunc", "kind:tcp", "kind:udp", "kind:via-tcp", "kind:via-udp", "kind:dns", "kind:flood", "flood:route-reject", "upstream-consulted", "dns-consulted",
 		"udp-batch:no", "udp-batch:sendmmsg", "proto:s5", "proto:http", "proto:none", "proto:ss128", "proto:ss256", "proto:ssfb", "proto:direct")
 
 // ---- plan (journaled as JSON)
@@ -917,6 +917,46 @@ func (env *svcEnv) run(op svcOp) (reached, consulted bool) {
 			_, _ = io.Copy(io.Discard, tc)
 			tc.Close()
 		}
+	case "trunc":
+		// truncated replay on an established session: the first datagram is genuine and establishes the session (ss2022:
+		// session id; socks5/none/direct: source address); then every prefix 0..len of the following genuine datagrams and
+		// of the first one is sent from the same socket, and every prefix from 16 bytes up once more with its last byte flipped.
+		pkts := env.buildDatagrams(op)
+		if len(pkts) == 0 {
+			return
+		}
+		u, err := net.DialUDP("udp4", nil, &net.UDPAddr{IP: net.IPv4(127, 0, 0, 1), Port: port})
+		if err != nil {
+			return
+		}
+		reached = true
+		_, _ = u.Write(pkts[0])
+		order := append(append([][]byte(nil), pkts[1:]...), pkts[0])
+		sent := int64(1)
+		for _, p := range order {
+			for l := 0; l <= len(p); l++ {
+				_, _ = u.Write(p[:l])
+				sent++
+				if l >= 16 {
+					f := append([]byte(nil), p[:l]...)
+					f[l-1] ^= 0x80
+					_, _ = u.Write(f)
+					sent++
+				}
+				if sent%64 == 0 {
+					time.Sleep(time.Millisecond) // do not overrun the listener's socket buffer: every prefix should be looked at
+				}
+			}
+		}
+		recSvc.Label("trunc-datagrams", sent)
+		_ = u.SetReadDeadline(time.Now().Add(30 * time.Millisecond))
+		buf := make([]byte, 65536)
+		for {
+			if _, err := u.Read(buf); err != nil {
+				break
+			}
+		}
+		u.Close()
 	case "flood":
 		pkts := env.buildDatagrams(op)
 		if len(pkts) == 0 {
@@ -1068,6 +1108,29 @@ func pick(rt *rapid.T, pool [][]byte, label string) (int, []byte) {
 	return i, pool[i]
 }
 
+// truncOp builds a "truncated replay on established session" operation for a UDP listener: three genuine datagrams
+// of one session to the echo peer (ss2022: sealed with the real keys at execution time, consecutive packet ids).
+func truncOp(listener string, sid, pid uint64, target []byte) svcOp {
+	op := svcOp{Kind: "trunc", Listener: listener, Build: "raw"}
+	payload := []byte("established")
+	for i := uint64(0); i < 3; i++ {
+		var d []byte
+		switch strings.SplitN(listener, "/", 2)[0] {
+		case "s5":
+			d = cat([]byte{0, 0, 0}, target, payload)
+		case "none":
+			d = cat(target, payload)
+		case "ss128", "ss256":
+			op.Build, op.Sel = "ss-udp", ssFixTS
+			d = dgram(sid, pid+i, cat(make([]byte, 9), []byte{0, 0}, target, payload))[2:]
+		default:
+			d = payload
+		}
+		op.Data = append(op.Data, hex.EncodeToString(d))
+	}
+	return op
+}
+
 // genFlood: tens of thousands of datagrams from 1-3 source addresses to a target whose session can never be
 // established (router says reject / SOCKS5 upstream refuses the TCP connection / ss-none upstream does not
 // resolve), so sessions are created and torn down continuously while packets for them keep arriving.
@@ -1103,8 +1166,12 @@ func genFlood(rt *rapid.T, ms int) svcOp {
 func genOp(rt *rapid.T) svcOp {
 	p := getPools()
 	op := svcOp{Build: "raw"}
-	kind := rapid.SampledFrom([]string{"tcp", "tcp", "tcp", "tcp", "udp", "udp", "udp", "via-tcp", "via-tcp", "via-udp", "dns"}).Draw(rt, "kind")
+	kind := rapid.SampledFrom([]string{"tcp", "tcp", "tcp", "tcp", "udp", "udp", "udp", "via-tcp", "via-tcp", "via-udp", "dns", "trunc"}).Draw(rt, "kind")
 	op.Kind = kind
+	if kind == "trunc" {
+		l := rapid.SampledFrom([]string{"ss128/udp", "ss128/udpmm", "ss256/udp", "ss256/udp", "ss128/udp", "s5/udp", "s5/udpmm", "none/udp", "none/udpmm", "direct/udp"}).Draw(rt, "truncListener")
+		return truncOp(l, rapid.Uint64().Draw(rt, "truncSid"), rapid.SampledFrom([]uint64{0, 1, 200, 1 << 32, 1<<63 - 2}).Draw(rt, "truncPid"), genSvcAddr(rt))
+	}
 	wellFormed := rapid.IntRange(0, 9).Draw(rt, "wellFormed") < 3
 	switch kind {
 	case "tcp":
@@ -1331,7 +1398,7 @@ func executePlan(t failer, env *svcEnv, plan svcPlan) {
 				labels = append(labels, "upstream-consulted")
 			}
 		}
-		nontrivial := reached && (consulted || op.Kind == "tcp" || op.Kind == "udp" || op.Kind == "flood")
+		nontrivial := reached && (consulted || op.Kind == "tcp" || op.Kind == "udp" || op.Kind == "flood" || op.Kind == "trunc")
 		if op.Kind == "flood" {
 			labels = append(labels, "flood:"+op.Note)
 		}
@@ -1480,6 +1547,10 @@ func TestServiceExtremeIDs(t *testing.T) {
 				svcOp{Kind: "udp", Listener: l, Build: "ss-udp", Sel: ssFixTS, Data: []string{h(sid, 5), h(sid, id), h(sid, 6), h(sid, id+1), h(sid, id-1)}, Note: "pid"},
 				svcOp{Kind: "udp", Listener: l, Build: "ss-udp", Sel: ssFixTS, Data: []string{h(id, 0), h(id, 1<<40), h(id, 1<<40+id), h(id, 1<<40-id)}, Note: "sid"})
 		}
+	}
+	// truncated replays on established sessions, every UDP listener (echo target: the sessions really come up)
+	for i, l := range udpListeners {
+		plan.Ops = append(plan.Ops, truncOp(l, uint64(9000+i), 0, target), truncOp(l, uint64(9100+i), 1<<32, target))
 	}
 	executePlan(t, env, plan)
 }
